@@ -155,6 +155,7 @@ func bootAlertWorld() error {
 			alertWorldErr = err
 			return
 		}
+		exitHooks = append(exitHooks, func() { os.RemoveAll(dir) }) // run by the driver after the last operation line
 		config.InitializeTestingConfig(dir + "/")
 		if err := alertsHandler.ConnectSiglensDB(); err != nil {
 			alertWorldErr = err
